@@ -34,6 +34,8 @@ func init() {
 
 func runC15(c *eng.Ctx) {
 	p := c.P
+	entryCutByTheOffsetsTable(c)
+	mergedIteratorAlwaysLatches(c)
 	everyScanHasItsOwnIterator(c)
 	onlyCommitAddsAKey(c)
 
